@@ -2,6 +2,8 @@
 
 Design: Pipeline.tla (assertion generation -> statement minimisation -> unused-variable removal ->
 export over all small test cases; KeepAsserts; the pre-1355a01 variant must fail).
+P2: TLC enumerates small test cases over harness/sut/pp_sut.py (MC_PipelineProg); each runs through the
+real AssertionGenerator, generator._minimize (every strategy and direction) and TestSuiteWriter.
 P1: end-to-end runs; every statement that carries assertions after assertion generation and
 assertion minimisation must appear in the exported file followed by as many assert lines.
 """
@@ -37,9 +39,15 @@ def run(ctx: Ctx) -> None:
                kind=lambda r, e: "whole-test-removed" if e["test_removed"] else "statement-dropped")
     for t in traces[:2]:
         ctx.sample(t["ev"][:3])
+    n_e2e = ctx.evaluations
+    # P2: TLC-enumerated test cases (calls that change the state of an object, so that assertions are
+    # attached to statements whose own variable is not asserted) through the real pipeline
+    ctx.evaluations = n_e2e + P.replay_progs(ctx, "C19", {"AssertionsKept"})
 
 
 def replay(ctx: Ctx, rec: dict) -> int:
+    if "replay" in rec["behaviour"]:
+        return P.replay_one(ctx, rec, "C19", {"AssertionsKept"})
     from harness.adapters import e2e  # noqa: PLC0415
 
     r = e2e.run_many([rec["behaviour"]])[0]
